@@ -865,6 +865,13 @@ func main() {
 			inconclusive++
 			return
 		}
+		if strings.Contains(rf.Message, "is not modelled") {
+			// the code under test used a facility the facades do not have (they say so in the error text
+			// or panic message): what followed is the simulator's doing, not the program's
+			fmt.Printf("the code under test used a facility the simulator does not model (%s): cannot decide\n  %s\n", path, strings.ReplaceAll(rf.Message, "\n", "\n  "))
+			inconclusive++
+			return
+		}
 		violations++
 		fmt.Printf("VIOLATION property=%s replay=%s\n", id, path)
 		fmt.Printf("  oracle=%s class=%s\n  %s\n", rf.Oracle, rf.Class, strings.ReplaceAll(rf.Message, "\n", "\n  "))
